@@ -44,6 +44,9 @@ def run(chk):
 def run_config(chk, facts, cfg):
     from .sites import run_sites
     run_sites(chk, facts, "C01-h", cfg)
+    if cfg == "union":
+        from .sites import run_engine_fixture
+        run_engine_fixture(chk)
     from .iterprog import run_iterprog
     run_iterprog(chk, facts, "C01-i", ("font_types", "read_fonts"), 25 if cfg == "union" else 10)
     # ---- C01-a -----------------------------------------------------------------------------------
